@@ -153,6 +153,8 @@ def case(chk, i):
             flags.append(r.choice(["--ignore-functions", "--generate=types,vars"]))
         R = set(it.name for it in items if any(matches(kd, pat, it) for kd, pat, _ in pats) and not (nofn and it.kind == "function"))
         B = set(it.name for it in items for bk, bn in block if (bk == "item" or it.kind == bk) and it.name == bn)
+        if not pats:
+            continue            # no allowlist option was produced for this selection (empty pools): nothing to check
         anyroot = bool(R)
         R -= B
         if not R and (not bare or anyroot):
